@@ -157,3 +157,8 @@ Proof. repeat split. Qed.
 Theorem C17_source_expecting :
   thin_of "Visitor<> for GAVisitor<T,N>" "expecting" = Some "write ! (formatter , ""struct GenericArray<T, U{}>"" , N :: USIZE)".
 Proof. reflexivity. Qed.
+
+(* the surplus probe deserialises a unit-like Dummy that accepts anything without looking at it (regenerated) *)
+Theorem C17_source_dummy :
+  thin_of "Deserialize<> for Dummy" "deserialize" = Some "Ok (Dummy)".
+Proof. reflexivity. Qed.
